@@ -3,7 +3,7 @@ import common
 import graph_prog as GP
 from common import cN, cZ, cnat, cbool, clist, copt, cpair
 
-PROOF_FILES = ['Proofs/Graph.v']
+PROOF_FILES = ['Proofs/Graph.v', 'Proofs/GraphIso.v', 'Proofs/GraphTotal.v']
 ASSUMPTIONS = [
     'reference objects are nnx.Object instances and Variables; list/tuple/dict are flattened by value (a container shared by two attributes is duplicated: known finding F9)',
     'attribute names are interned in sorted order (only their order and equality matter); types, metadata dicts and static values are interned as codes',
